@@ -4,12 +4,15 @@ package tables
 
 // Overlaid into /repo/internal/server/tables by /verif/check C18 (never written into /repo).
 //
-// TestVerifC18 reads VERIF_IN: {"cases":[{"id":n,"type":"int","value":<raw JSON>}...]}.  For every column type it
-// creates a table  k string, v <type>  through the real TableCreate handler on a SQLite file reached through a DSN,
-// inserts every case as one row through the real InsertRows handler (the request body is built textually, so the
-// raw JSON spelling of the value is exactly what the client sent) and reads it back through the real ReadRows
-// handler with a filter on k.  Output per case: insert status, read status, the raw JSON text of the value that
-// came back, plus what parsing.CoerceToColumnType does with the decoded value directly (the model's write side).
+// TestVerifC18 reads VERIF_IN: {"cases":[{"id":n,"type":"int","value":<raw JSON>}...], "chains":[[case...]...]}.
+// For every column type it creates a table  k string, v <type>  through the real TableCreate handler on a SQLite
+// file reached through a DSN, inserts every case as one row through the real InsertRows handler (the request body
+// is built textually, so the raw JSON spelling of the value is exactly what the client sent) and reads it back
+// through the real ReadRows handler with a filter on k.  Output per case: insert status, read status, the raw JSON
+// text of the value that came back, the SQLite cell, plus what parsing.CoerceToColumnType does with the decoded
+// value directly.  Then every table is read once more WITHOUT a filter (all rows in one response; "all").
+// A chain is one table name that is dropped (real DeleteTable) and created again with the next case's column type
+// before that case's round trip ("chains").
 
 import (
 	"bytes"
@@ -64,7 +67,8 @@ func TestVerifC18(t *testing.T) {
 	}
 
 	in := struct {
-		Cases []c18Case `json:"cases"`
+		Cases  []c18Case   `json:"cases"`
+		Chains [][]c18Case `json:"chains"`
 	}{}
 	if err := json.Unmarshal(raw, &in); err != nil {
 		t.Fatal(err)
@@ -101,34 +105,40 @@ func TestVerifC18(t *testing.T) {
 
 	outs := []c18Out{}
 	created := map[string]string{}
+	tableOf := map[string]string{}
 
-	for _, c := range in.Cases {
+	create := func(table, typ string) string {
+		body, _ := json.Marshal([]defs.DBColumn{{Name: "k", Type: "string"}, {Name: "v", Type: typ}})
+		u := "/dsns/c18/tables/" + table
+		req, _ := http.NewRequest(http.MethodPut, u, bytes.NewReader(body))
+		rr := httptest.NewRecorder()
+		s := c18Session(table, map[string][]string{})
+		s.URL, _ = url.Parse(u)
+
+		if st := TableCreate(s, rr, req); st != http.StatusOK && st != http.StatusCreated {
+			return fmt.Sprintf("create table %s: status %d: %s", table, st, rr.Body.String())
+		}
+
+		return ""
+	}
+
+	drop := func(table string) string {
+		u := "/dsns/c18/tables/" + table
+		req, _ := http.NewRequest(http.MethodDelete, u, nil)
+		rr := httptest.NewRecorder()
+		s := c18Session(table, map[string][]string{})
+		s.URL, _ = url.Parse(u)
+
+		if st := DeleteTable(s, rr, req); st != http.StatusOK {
+			return fmt.Sprintf("drop table %s: status %d: %s", table, st, rr.Body.String())
+		}
+
+		return ""
+	}
+
+	// one row written through InsertRows and read back through ReadRows with a filter on its key
+	roundTrip := func(table string, c c18Case) c18Out {
 		o := c18Out{ID: c.ID}
-		table := "c18_" + strings.ReplaceAll(c.Type, " ", "_")
-
-		if msg, done := created[c.Type]; !done {
-			body, _ := json.Marshal([]defs.DBColumn{{Name: "k", Type: "string"}, {Name: "v", Type: c.Type}})
-			u := "/dsns/c18/tables/" + table
-			req, _ := http.NewRequest(http.MethodPut, u, bytes.NewReader(body))
-			rr := httptest.NewRecorder()
-			s := c18Session(table, map[string][]string{})
-			s.URL, _ = url.Parse(u)
-
-			msg = ""
-			if st := TableCreate(s, rr, req); st != http.StatusOK && st != http.StatusCreated {
-				msg = fmt.Sprintf("create table %s: status %d: %s", table, st, rr.Body.String())
-			}
-
-			created[c.Type] = msg
-		}
-
-		if msg := created[c.Type]; msg != "" {
-			o.Err = msg
-			outs = append(outs, o)
-
-			continue
-		}
-
 		key := fmt.Sprintf("case%d", c.ID)
 
 		// write
@@ -178,10 +188,97 @@ func TestVerifC18(t *testing.T) {
 			}
 		}
 
-		outs = append(outs, o)
+		return o
 	}
 
-	b, _ := json.Marshal(outs)
+	for _, c := range in.Cases {
+		table := "c18_" + strings.ReplaceAll(c.Type, " ", "_")
+		tableOf[c.Type] = table
+
+		if _, done := created[c.Type]; !done {
+			created[c.Type] = create(table, c.Type)
+		}
+
+		if msg := created[c.Type]; msg != "" {
+			outs = append(outs, c18Out{ID: c.ID, Err: msg})
+
+			continue
+		}
+
+		outs = append(outs, roundTrip(table, c))
+	}
+
+	// every table once more, all rows in ONE response (no filter): key -> raw JSON of v
+	all := map[string]map[string]string{}
+	allErr := map[string]string{}
+
+	for typ, table := range tableOf {
+		if created[typ] != "" {
+			continue
+		}
+
+		req, _ := http.NewRequest(http.MethodGet, "/dsns/c18/tables/"+table+"/rows?limit=1000000", nil)
+		rr := httptest.NewRecorder()
+		s := c18Session(table, map[string][]string{"limit": {"1000000"}})
+		s.URL = req.URL
+		st := ReadRows(s, rr, req)
+
+		resp := struct {
+			Rows []map[string]json.RawMessage `json:"rows"`
+		}{}
+
+		if err := json.Unmarshal(rr.Body.Bytes(), &resp); err != nil || st != http.StatusOK {
+			body := rr.Body.String()
+			if len(body) > 400 {
+				body = body[:400]
+			}
+
+			allErr[typ] = fmt.Sprintf("status %d, %v: %s", st, err, body)
+
+			continue
+		}
+
+		m := map[string]string{}
+
+		for _, row := range resp.Rows {
+			var k string
+
+			_ = json.Unmarshal(row["k"], &k)
+			m[k] = string(row["v"])
+		}
+
+		all[typ] = m
+	}
+
+	// chains: the same table name dropped and created again with another column type between round trips
+	chainOuts := [][]c18Out{}
+
+	for ci, chain := range in.Chains {
+		table := fmt.Sprintf("c18_chain%d", ci)
+		res := []c18Out{}
+
+		for si, c := range chain {
+			if si > 0 {
+				if msg := drop(table); msg != "" {
+					res = append(res, c18Out{ID: c.ID, Err: msg})
+
+					break
+				}
+			}
+
+			if msg := create(table, c.Type); msg != "" {
+				res = append(res, c18Out{ID: c.ID, Err: msg})
+
+				break
+			}
+
+			res = append(res, roundTrip(table, c))
+		}
+
+		chainOuts = append(chainOuts, res)
+	}
+
+	b, _ := json.Marshal(map[string]any{"cases": outs, "all": all, "all_err": allErr, "chains": chainOuts})
 	if err := os.WriteFile(os.Getenv("VERIF_OUT"), b, 0o644); err != nil {
 		t.Fatal(err)
 	}
